@@ -37,6 +37,8 @@ def _validate_chunk(module, cfg, execs, rundir, tag, env_extra, timeout_s, max_r
     """Returns (n_accepted, [ (exec_lines, offset_in_exec, printed) ... ], states)"""
     rejected = []
     states = 0
+    devused = set()
+    devexecs = 0
     execs = list(execs)
     while execs:
         path = os.path.join(rundir, "trace-%s.ndjson" % tag)
@@ -52,6 +54,13 @@ def _validate_chunk(module, cfg, execs, rundir, tag, env_extra, timeout_s, max_r
         states += r.distinct
         m = _RE_REJ.search(r.out)
         if _RE_ACC.search(r.out) and r.status == "ok":
+            for raw in r.printed_raw("DEVUSED"):
+                devused.update(re.findall(r'"([^"]+)"', raw))
+            for raw in r.printed_raw("DEVEXECS"):
+                try:
+                    devexecs += int(raw)
+                except ValueError:
+                    pass
             break
         if not m:
             raise Broken("trace validation run failed (%s, rc=%s): %s" % (r.status, r.rc, r.out[-2500:]))
@@ -74,7 +83,7 @@ def _validate_chunk(module, cfg, execs, rundir, tag, env_extra, timeout_s, max_r
         os.unlink(os.path.join(rundir, "trace-%s.ndjson" % tag))
     except OSError:
         pass
-    return len(execs), rejected, states
+    return len(execs), rejected, states, devused, devexecs
 
 
 def validate(ctx, module, cfg, lines, *, marker='"e":"Cfg"', chunk=2500, parallel=8, env=None,
@@ -83,13 +92,16 @@ def validate(ctx, module, cfg, lines, *, marker='"e":"Cfg"', chunk=2500, paralle
     item: dict(events=[parsed lines], at=<index of first unexplainable event>)."""
     execs = split_executions(lines, marker)
     chunks = [execs[i:i + chunk] for i in range(0, len(execs), chunk)]
-    res = {"executions": len(execs), "accepted": 0, "rejected": [], "events": len(lines)}
+    res = {"executions": len(execs), "accepted": 0, "rejected": [], "events": len(lines),
+           "devused": set(), "devexecs": 0}
     with cf.ThreadPoolExecutor(max_workers=max(1, parallel)) as ex:
         futs = [ex.submit(_validate_chunk, module, cfg, c, ctx.rundir.path, "%s%d" % (tag, i), env,
                           timeout_s, max_rejects, dfs) for i, c in enumerate(chunks)]
         for f in futs:
-            n, rej, states = f.result()
+            n, rej, states, du, de = f.result()
             res["accepted"] += n
+            res["devused"] |= du
+            res["devexecs"] += de
             ctx.states += states
             ctx.transitions += states
             for e, off, _ in rej:
